@@ -362,7 +362,7 @@ def r_ptb(repo, rep, writer_only=False, RT='R20.6', RE='R20.5'):
     red = red_c[0]
     # the closure that builds the nodes (Tree.make_binary): the one that makes the tokens, or one that calls it for the word
     bld_c = by_call('Tree.make_binary')
-    if len(bld_c) == 1 and bld_c[0] is not rec_c[0]:
+    if len(bld_c) == 1 and bld_c[0] is not rec_c[0] and bld_c[0].args.args:
         red = bld_c[0]
     it = red.args.args[0].arg
     inv_ok = False
